@@ -977,6 +977,11 @@ impl<'a> ZipFile<'a> {
 
 impl<'a> Read for ZipFile<'a> {
     fn read(&mut self, buf: &mut [u8]) -> io::Result<usize> {
+        // A zero-length read transfers nothing; some decoders (zstd) report an
+        // error when asked to make progress into an empty buffer.
+        if buf.is_empty() {
+            return Ok(0);
+        }
         self.get_reader().read(buf)
     }
 }
